@@ -13,6 +13,7 @@ var Shapes = map[string][]Op{
 	"chain3":  chainOps(0, 3),
 	"chain4":  chainOps(0, 4),
 	"chain6":  chainOps(0, 6),
+	"chain8":  chainOps(0, 8),
 	"fork":    {{K: "app", A: 0}, {K: "join", A: 1, B: 0}, {K: "app", A: 0}, {K: "app", A: 1}, {K: "join", A: 0, B: 1}},
 	"diamond": {{K: "app", A: 0}, {K: "join", A: 1, B: 0}, {K: "app", A: 0}, {K: "app", A: 1}, {K: "join", A: 0, B: 1}, {K: "app", A: 0}},
 	"heads3":  {{K: "app", A: 0}, {K: "app", A: 1}, {K: "app", A: 2}, {K: "join", A: 0, B: 1}, {K: "join", A: 0, B: 2}},
@@ -20,4 +21,4 @@ var Shapes = map[string][]Op{
 	"wide":    {{K: "app", A: 0}, {K: "join", A: 1, B: 0}, {K: "join", A: 2, B: 0}, {K: "app", A: 0}, {K: "app", A: 1}, {K: "app", A: 2}, {K: "join", A: 0, B: 1}, {K: "join", A: 0, B: 2}, {K: "app", A: 0}},
 }
 
-var ShapeNames = []string{"chain3", "chain4", "fork", "diamond", "heads3", "stale", "chain6", "wide"}
+var ShapeNames = []string{"chain3", "chain4", "fork", "diamond", "heads3", "stale", "chain6", "wide", "chain8"}
